@@ -139,7 +139,11 @@ struct Run<'a> {
 
 impl<'a> Run<'a> {
     fn new(f: &'a TestFile, kind: Kind, seekable: bool) -> Option<Self> {
-        match Drv::open(kind, &f.bytes, Chunking::Whole, seekable) {
+        Self::new_at(f, kind, seekable, 0)
+    }
+    /// the same file behind `prefix` foreign bytes, the source positioned at the stream start
+    fn new_at(f: &'a TestFile, kind: Kind, seekable: bool, prefix: usize) -> Option<Self> {
+        match Drv::open_at(kind, &f.bytes, prefix, Chunking::Whole, seekable) {
             Ok(drv) => Some(Run { f, kind, drv, rc: RefCursor::new(f, kind, seekable), ops: vec![], obs: vec![], avail: 0, iter_mode: false, dead: false, viol: String::new() }),
             Err(e) => {
                 note(&format!("cannot open {} on file {}: {}", kind.tag(), f.id, e));
@@ -247,7 +251,10 @@ fn main() {
                     _ => &[0],
                 };
                 for &mode in modes {
-                    let Some(mut run) = Run::new(f, kind, true) else { continue };
+                    // every third history: the stream sits behind foreign bytes (the source is positioned at its start)
+                    let lead = if (mi as u64 + mode) % 3 == 2 { 37 + 11 * (mi % 4) } else { 0 };
+                    let Some(mut run) = Run::new_at(f, kind, true, lead) else { continue };
+                    if lead > 0 { bump("histories.behind-a-prefix", 1); }
                     hist += 1;
                     // prefix: leave the reader in a different buffer state each time
                     match (mi as u64 + mode) % 4 {
@@ -325,6 +332,35 @@ fn main() {
                     bump(&format!("histories.boundary.{}", kind.tag()), 1);
                     bump("ops", run.ops.len() as u64);
                     emit_case(f, kind, true, "whole", &run.ops, &run.obs, "boundary", &run.viol);
+                }
+            }
+            // ---- back-to-back seeks: [decode something] ; seek(t) ; seek(t - d) ; fill ; consume ; fill  (t a frame start /
+            //      seek point, d small): the second seek must not be answered from whatever the first one left behind
+            for (mi, &t) in marks.iter().enumerate() {
+                if t == 0 || t > f.pcm_frames() { continue; }
+                for d in [1u64, 2, 5] {
+                    if d > t || (!thorough && (mi as u64 + d) % 2 == 1) { continue; }
+                    let lead = if (mi as u64 + d) % 4 == 3 { 41 } else { 0 };
+                    let Some(mut run) = Run::new_at(f, kind, true, lead) else { continue };
+                    if (mi as u64 + d) % 3 != 0 {
+                        // something decoded first (a reader that never decoded holds no stale frame)
+                        run.go(Op::Fill, &mut viols, true);
+                        let k = run.avail.min(1 + mi % 3);
+                        run.go(Op::Consume(k), &mut viols, true);
+                    }
+                    let pos = run.rc.pos();
+                    let op = g.seek_to(t, 0, 0, pos);
+                    run.go(op, &mut viols, true);
+                    let pos = run.rc.pos();
+                    let op = g.seek_to(t - d, 0, (mi as u64) % 3, pos);
+                    run.go(op, &mut viols, true);
+                    run.go(Op::Fill, &mut viols, true);
+                    let k = run.avail.min(7);
+                    run.go(Op::Consume(k), &mut viols, true);
+                    run.go(Op::Fill, &mut viols, true);
+                    bump(&format!("histories.double-seek.{}", kind.tag()), 1);
+                    bump("ops", run.ops.len() as u64);
+                    emit_case(f, kind, true, "whole", &run.ops, &run.obs, "double-seek", &run.viol);
                 }
             }
             // ---- extreme targets from assorted states
